@@ -167,6 +167,67 @@ func c13RefreshFacts(c *ctxT, sb *strings.Builder) {
 }
 
 // ---------------------------------------------------------------------------------------------------------------
+// GetCurrentOracleSet skip condition and pruneOracleSet comparisons
+
+func c13SetFacts(c *ctxT, sb *strings.Builder) {
+	sb.WriteString("/-- which oracles `GetCurrentOracleSet` leaves out before it sums and normalises the powers -/\ninductive PowerSkip where\n  | nonPositive   -- `if power.LTE(0) { continue }`\n  | negative      -- only negative powers are skipped: zero-power members stay in\n  | none\n  | other\n  deriving DecidableEq, Repr\n\n")
+	skip := ".none"
+	if fd := c.findFunc(c13Keeper, "Keeper", "GetCurrentOracleSet"); fd != nil && fd.Body != nil {
+		ast.Inspect(fd.Body, func(n ast.Node) bool {
+			ifs, ok := n.(*ast.IfStmt)
+			if !ok || len(ifs.Body.List) != 1 {
+				return true
+			}
+			br, ok := ifs.Body.List[0].(*ast.BranchStmt)
+			if !ok || br.Tok != token.CONTINUE {
+				return true
+			}
+			switch squash(c.src(ifs.Cond)) {
+			case "power.LTE(sdkmath.ZeroInt())", "!power.IsPositive()", "power.LTE(sdkmath.NewInt(0))":
+				skip = ".nonPositive"
+			case "power.IsNegative()", "power.LT(sdkmath.ZeroInt())":
+				skip = ".negative"
+			default:
+				skip = ".other"
+			}
+			return true
+		})
+	}
+	fmt.Fprintf(sb, "def currentSetSkip : PowerSkip := %s\n\n", skip)
+	// pruneOracleSet: tooEarly := currentBlock <cmp> window ; if earliestToPrune <cmp> set.Height && lastObserved.Nonce <cmp> set.Nonce
+	early, hcmp, ncmp := ".other", ".other", ".other"
+	guarded := false
+	if fd := c.findFunc(c13Keeper, "Keeper", "pruneOracleSet"); fd != nil && fd.Body != nil {
+		ast.Inspect(fd.Body, func(n ast.Node) bool {
+			switch x := n.(type) {
+			case *ast.AssignStmt:
+				if len(x.Lhs) == 1 && len(x.Rhs) == 1 && squash(c.src(x.Lhs[0])) == "tooEarly" {
+					if be, ok := x.Rhs[0].(*ast.BinaryExpr); ok && squash(c.src(be.X)) == "currentBlock" {
+						early = cmpOf(be.Op)
+					}
+				}
+			case *ast.IfStmt:
+				cond := squash(c.src(x.Cond))
+				if cond == "lastObserved != nil && !tooEarly" {
+					guarded = true
+				}
+				if be, ok := x.Cond.(*ast.BinaryExpr); ok && be.Op == token.LAND {
+					if l, ok := be.X.(*ast.BinaryExpr); ok && squash(c.src(l.X)) == "earliestToPrune" && squash(c.src(l.Y)) == "set.Height" {
+						hcmp = cmpOf(l.Op)
+					}
+					if r, ok := be.Y.(*ast.BinaryExpr); ok && squash(c.src(r.X)) == "lastObserved.Nonce" && squash(c.src(r.Y)) == "set.Nonce" {
+						ncmp = cmpOf(r.Op)
+					}
+				}
+			}
+			return true
+		})
+	}
+	fmt.Fprintf(sb, "/-- `pruneOracleSet`: `tooEarly := currentBlock <cmp> window` -/\ndef pruneTooEarlyCmp : Cmp := %s\n/-- pruning runs only under `lastObserved != nil && !tooEarly` -/\ndef pruneGuarded : Bool := %s\n/-- `earliestToPrune <cmp> set.Height` -/\ndef pruneHeightCmp : Cmp := %s\n/-- `lastObserved.Nonce <cmp> set.Nonce` -/\ndef pruneNonceCmp : Cmp := %s\n\n", early, lb(guarded), hcmp, ncmp)
+	c.facts["C13.currentSetSkip"] = skip
+}
+
+// ---------------------------------------------------------------------------------------------------------------
 // AddDelegate guards (C13)
 
 func c13AddFacts(c *ctxT, sb *strings.Builder) {
